@@ -15,7 +15,7 @@ TNext ==
        [] r.e = "conv"  -> /\ ~r.null                                   \* a rendering was returned
                            /\ \A i \in 1 .. Len(r.diag) : r.diag[i] \notin Escapes
                            /\ (r.nonblank => r.len > 1)                 \* a document that starts with a rendered block does not render to nothing
-                           /\ (r.seq # <<>> => Complete(r.seq, r.cnt, r.carries))   \* no line of a generated document is missing from its rendering (LineSpell)
+                           /\ (r.seq # <<>> => Complete(r.seq, r.cnt, r.carries, r.compat))   \* no line of a generated document is missing from its rendering (LineSpell)
                            /\ converted' = converted + 1
        [] OTHER -> FALSE                                                \* "exit", "aborted", "timeout": control did not come back
 TraceAccepted == TLCGet("stats").diameter = Len(Tr) + 1
